@@ -19,7 +19,9 @@ RULE = (
     "recording}; rules = single run, batch (int / list / tuple of counts), outcome distribution "
     "(n / None), wavefunction, exact expectation, each in valid and invalid variants (n <= 0, wrong "
     "length, non-positive entry). Circuits are basis-state preparations with distinct bit patterns, "
-    "idle qubits, interleaved I/Z gates and empty circuits of explicit width, so result order and "
+    "idle qubits, interleaved I/Z gates, diagonal rotations whose angles come from a pool of values that compare "
+    "equal yet serialise differently (0.5 / 0.5000000025 / 1/2, 1 / 1.0, pi/2 / 1.5707963267948966; rule run_twins "
+    "submits such a pair back to back) and empty circuits of explicit width, so result order and "
     "content are checkable. After every call: ValueError iff invalid, nothing executed and counters "
     "unchanged on rejection, one result per circuit in order with >= requested shots of register "
     "length, exact counter growth, tracker returns the inner runner's objects and writes matching "
@@ -34,11 +36,36 @@ ASSUMPTIONS = [
 KINDS = ["scripted", "symbolic", "split", "tracker_scripted", "tracker_symbolic"]
 
 
+# angle values that compare equal (gate equality tolerates 1e-8) but serialise differently
+ANGLES = ["0.5", "0.5000000025", "1/2", "1", "1.0", "pi/2", "1.5707963267948966", "0.3", "2"]
+TWIN = {"0.5": "0.5000000025", "0.5000000025": "1/2", "1/2": "0.5", "1": "1.0", "1.0": "1", "pi/2": "1.5707963267948966",
+        "1.5707963267948966": "pi/2", "0.3": "0.3", "2": "2"}
+
+
+def _angle(text):
+    import sympy
+
+    if text in ("1", "2"):
+        return int(text)
+    if "/" in text or "pi" in text:
+        return sympy.sympify(text)
+    return float(text)
+
+
+def twin_spec(spec):
+    """Same circuit with every diagonal-rotation angle replaced by a value that compares equal to it."""
+    out = dict(spec)
+    out["rot"] = [[g, q, TWIN[a]] for g, q, a in spec.get("rot", [])]
+    return out
+
+
 def _circuit(spec):
-    """spec: {"bits": [0/1...], "extra": [[gate, qubit], ...], "explicit": bool}"""
-    from orquestra.quantum.circuits import Circuit, I, X, Z
+    """spec: {"bits": [0/1...], "extra": [[gate, qubit], ...], "explicit": bool, "rot": [[RZ|PHASE, qubit, angle text], ...]}"""
+    from orquestra.quantum.circuits import PHASE, RZ, Circuit, I, X, Z
 
     ops = []
+    for g, q, a in spec.get("rot", []):  # diagonal gates: the prepared basis state is unchanged
+        ops.append({"RZ": RZ, "PHASE": PHASE}[g](_angle(a))(q % len(spec["bits"])))
     extra = list(spec["extra"])
     for q, b in enumerate(spec["bits"]):
         if extra:
@@ -58,6 +85,7 @@ circuit_specs = st.fixed_dictionaries({
     "bits": st.lists(st.integers(0, 1), min_size=1, max_size=4),
     "extra": st.lists(st.tuples(st.sampled_from(["I", "Z"]), st.integers(0, 3)).map(list), max_size=3),
     "explicit": st.booleans(),
+    "rot": st.one_of(st.just([]), st.lists(st.tuples(st.sampled_from(["RZ", "PHASE"]), st.integers(0, 3), st.sampled_from(ANGLES)).map(list), min_size=1, max_size=2)),
 })
 
 
@@ -258,6 +286,37 @@ def machine(on_end, expired):
                 self._note("ok")
             self.step("run_single", {"c": c, "n": n}, go)
 
+        @rule(c=circuit_specs.filter(lambda c: c["rot"]), n=st.integers(1, 10), batch=st.booleans())
+        def run_twins(self, c, n, batch):
+            """Two circuits that compare equal but are written differently, one after the other."""
+            def go():
+                specs = [c, twin_spec(c)]
+                circs = [_circuit(x) for x in specs]
+                before = self._snapshot()
+                n_ret = len(self.inner.returned) if self.inner is not None else 0
+                if batch:
+                    res = must(lambda: self.runner.run_batch_and_measure(circs, n), "run_batch_and_measure")
+                    require(len(res) == 2, lambda: f"{len(res)} results for 2 circuits")
+                    for x, circ, m in zip(specs, circs, res):
+                        self._check_result(x, circ, m, n)
+                    self._check_growth(before, circs, "batch")
+                    if self.inner is not None:
+                        got = self.inner.returned[n_ret:]
+                        require(len(got) == 2 and all(a is b for a, b in zip(res, got)), "tracker did not return the objects the wrapped runner returned")
+                        self._check_file(circs, res)
+                else:
+                    for x, circ in zip(specs, circs):
+                        before = self._snapshot()
+                        m = must(lambda: self.runner.run_and_measure(circ, n), "run_and_measure")
+                        self._check_result(x, circ, m, n)
+                        self._check_growth(before, [circ], "single")
+                        if self.inner is not None:
+                            require(m is self.inner.returned[-1], "tracker did not return the object the wrapped runner returned")
+                            self._check_file([circ], [m])
+                self._note("ok")
+                self.info["classes"].add("twins")
+            self.step("run_twins", {"c": c, "n": n, "batch": batch}, go)
+
         @rule(c=circuit_specs, n=st.sampled_from([0, -1, -7]))
         def run_single_invalid(self, c, n):
             def go():
@@ -373,4 +432,4 @@ SUBCHECKS = [
              rule="state machine over runner calls; non-trivial = a rejected call between two successful ones"),
 ]
 SUBCHECKS[0].expected_classes = ["kind:" + k for k in KINDS] + ["ok_rejected_ok", "batch:int", "batch:list", "batch:tuple",
-                                                                 "bad:short", "bad:long", "bad:zero_entry", "bad:neg_entry", "bad:int0"]
+                                                                 "bad:short", "bad:long", "bad:zero_entry", "bad:neg_entry", "bad:int0", "twins"]
